@@ -281,14 +281,20 @@ impl<T: Actor> ActorRef<T> {
                          or restructure actor dependencies."
                     );
                 }
-                graph.insert(caller.id, callee);
-                Some(crate::WaitForGuard(caller.id))
+                let token = crate::next_wait_token();
+                graph.insert(caller.id, (callee, token));
+                Some(crate::WaitForGuard(caller.id, token))
             } else {
                 None
             }
         };
 
         let (reply_tx, reply_rx) = oneshot::channel();
+        #[cfg(feature = "deadlock-detection")]
+        let reply_tx = crate::ReplySender {
+            tx: reply_tx,
+            edge: _guard.as_ref().map(|g| (g.0, g.1)),
+        };
         let envelope = MailboxMessage::Envelope {
             payload: Box::new(msg),
             reply_channel: Some(reply_tx),
@@ -667,6 +673,11 @@ impl<T: Actor> ActorRef<T> {
         T::Reply: Send + 'static,
     {
         let (reply_tx, reply_rx) = oneshot::channel();
+        #[cfg(feature = "deadlock-detection")]
+        let reply_tx = crate::ReplySender {
+            tx: reply_tx,
+            edge: None,
+        };
         let envelope = MailboxMessage::Envelope {
             payload: Box::new(msg),
             reply_channel: Some(reply_tx),
